@@ -33,7 +33,9 @@ Modelled == {"push_back", "push_back_m", "emplace_back_c", "emplace_back_v", "in
              "assign_rng", "assign_il", "opeq_il", "append_rng", "append_il", "insert_rng", "insert_il", "ctor_rng", "ctor_il",
              \* two-container routines
              "ctor_copy", "ctor_move", "assign_copy", "assign_copy_f", "assign_move", "assign_move_f", "swap",
-             "append_copy", "append_move", "cmp"}
+             "append_copy", "append_move", "cmp",
+             \* non-member erase / erase_if: std::remove(_if) as libstdc++ implements it, then erase (new_end, end ())
+             "erase_val", "erase_if"}
 
 \* range calls are modelled for every multi-pass kind (forward, bidirectional, random access, pointer, move_iterator,
 \* another container's iterators); single-pass input ranges (kind 0) are L1 / L0 only
@@ -739,6 +741,18 @@ Script(cfg, pre, ln, id) ==
               ELSE <<IAlloc(id, n, al), ITry(<<UCopyExt(cfg, rk, 10 + id, 0, 0, n)>>, <<IDealloc(id, n, al)>>),
                      ISetP(c, TRUE, al), ISetHd(c, n, id), ISetSz(c, n)>>
             ELSE <<UCopyExt(cfg, rk, InlRegion(c), 0, 0, n), ISetP(c, TRUE, al), ISetHd(c, N, 0), ISetSz(c, n)>>)
+    [] op \in {"erase_val", "erase_if"} ->
+         \* std::remove_if: find the first match; every later element that is kept is move-assigned down; then the
+         \* tail [new_end, end) is erased (size first, then destructors)
+         LET es == pre[c].e
+             hit(j) == IF op = "erase_val" THEN es[j + 1][1] = a[1] ELSE PredHolds(a[1], a[2], es[j + 1][1])
+             firsts == {j \in 0..(x.sz - 1) : hit(j)}
+         IN IF firsts = {} THEN <<IRet(0)>>
+            ELSE LET f == CHOOSE j \in firsts : \A j2 \in firsts : j <= j2
+                     kept == SelectSeq([k \in 1..(x.sz - f - 1) |-> f + k], LAMBDA j : ~hit(j))
+                     moves == [k \in 1..Len(kept) |-> IAsg(R, f + k - 1, MoveKind(cfg), R, kept[k])]
+                     newsz == f + Len(kept)
+                 IN moves \o <<ISetSz(c, newsz)>> \o DestroyRange(R, newsz, x.sz) \o <<IRet(x.sz - newsz)>>
     [] op = "erase"          -> EraseRangeImpl(cfg, c, x, R, a[1], a[1] + 1)
     [] op = "erase_rng"      -> EraseRangeImpl(cfg, c, x, R, a[1], a[2])
     [] op = "pop_back"       -> <<ISetSz(c, x.sz - 1), IDtor(R, x.sz - 1)>>
